@@ -15,8 +15,13 @@ func txCfg(untrusted int) WorldCfg {
 
 func c03Scenarios() []histParams {
 	ev := []string{"inv:T:R1", "tx:T:R1", "tx:U1:R1", "inv:U1:R1", "uans:U1", "ans", "tx:T:R2", "tx:U1:I1", "local:R1",
-		"mine:R1", "mine+:R1,R2", "mine+:", "tick:250", "settle", "restart", "crash"}
-	return []histParams{{Prop: "C03", Cfg: txCfg(1), Boot: "synced", Events: ev, Tx: true}}
+		"mine:R1", "mine:D2", "mine+:R1,R2", "mine+:", "tick:250", "settle", "restart", "crash"}
+	// back-pressure: more relevant txs relayed back to back than the node's tx channel buffers (100)
+	burst := txCfg(1)
+	burst.Burst = 104
+	evB := []string{"burst:T", "burst:U1", "tx:T:R1", "mine+:R1", "mine:B000,B103", "ans", "tick:250", "settle"}
+	return []histParams{{Prop: "C03", Cfg: txCfg(1), Boot: "synced", Events: ev, Tx: true},
+		{Prop: "C03", Cfg: burst, Boot: "synced", Events: evB, Tx: true}}
 }
 
 func init() {
